@@ -1,1 +1,226 @@
-(* Props/C15.v -- stub, to be filled in *)
+(* Props/C15.v -- property theorems only: Theorem / exact lemma / Check (pins the statement) / Print Assumptions.
+
+   C15: vector arithmetic, reductions, norms and edits match their definitions under any history.
+
+   Proved here, for all lengths, all values, all histories (about the Gallina model Model/Vector.v + VecOps.v,
+   whose Qc and float instances are run against src/vector/*.rs on every check):
+     vec_run_refines       every step of every edit history satisfies its pointwise list specification
+                           (push/push_front/insert/pop/swap/resize/assign/clear/sort/find/set with the exact
+                           panic conditions and classes; sort = ANY sorted permutation: the contract of the
+                           external Vec::sort_unstable_by is a hypothesis on a Section variable);
+     sum_slice_spec, product_slice_spec, sum_spec   value on every in-range pair, the exact guard conditions;
+     dot_symmetric, dot_bilinear (any ring);  linspace_ends (any field with `n as T` of characteristic 0);
+     over R: linspace_monotone (strict), non-negativity, homogeneity and the triangle inequality of
+     norm_1 / norm_2 (Cauchy-Schwarz) / norm_inf, and norm_chain (inf <= 2 <= 1).
+   Statements differ from DESIGN Appendix E in two places, forced by the model: (1) vec_run_refines is stated as
+   "every step satisfies a pointwise (nth/length) specification" instead of an equation between two folds,
+   because the model vector already IS a list (absV would be the identity and the equation a tautology);
+   (2) norm_inf returns res (it indexes v[0]: Panic Index on the empty vector), so its laws carry `= Ok m`.
+   Not proved (DESIGN section 10): every statement "up to rounding" over f64, Minkowski for general p,
+   powspace / norm_p (libm pow) -- tied by tolerance and searched on every run. *)
+From Coq Require Import List Arith Reals Permutation Sorted QArith Qcanon.
+From OV Require Import Base.Panic Base.Arith Model.Complex Model.Vector Model.VecOps
+                       Proofs.Vector Proofs.VectorR Inst.QcInst.
+Import ListNotations.
+Local Open Scope nat_scope.
+
+(* ---------------------------------------------------------------- histories *)
+Theorem vec_run_refines : forall (A : Arith) (sorter : list A -> list A),
+  sorter_ok sorter -> forall (ops : list (vop A)) (v : list A), run_spec sorter v ops.
+Proof. intros A sorter Hs ops v. exact (vec_run_refines_lemma sorter Hs ops v). Qed.
+Check vec_run_refines : forall (A : Arith) (sorter : list A -> list A),
+  sorter_ok sorter -> forall (ops : list (vop A)) (v : list A), run_spec sorter v ops.
+Print Assumptions vec_run_refines.
+
+Theorem vec_step_refines : forall (A : Arith) (sorter : list A -> list A),
+  sorter_ok sorter -> forall (v : list A) (o : vop A), step_spec v o (vstep sorter v o).
+Proof. intros A sorter Hs v o. exact (step_refines sorter Hs v o). Qed.
+Check vec_step_refines : forall (A : Arith) (sorter : list A -> list A),
+  sorter_ok sorter -> forall (v : list A) (o : vop A), step_spec v o (vstep sorter v o).
+Print Assumptions vec_step_refines.
+
+(* non-vacuity: the sorter used to RUN the model (insertion sort on Qc's order) meets the contract on a concrete
+   list, and a concrete history runs to the expected state through a panic (pop on empty is skipped) *)
+Example vec_run_refines_nonvacuous :
+  let l := [q 3 1; q (-1) 2; q 2 1; q (-1) 2] in
+  Permutation (isort (A := AQ) leb l) l /\ Sorted (le_rel (A := AQ)) (isort (A := AQ) leb l) /\
+  vrun_state (A := AQ) (isort (A := AQ) leb) [] [@VPop AQ; @VPush AQ (q 3 1); @VPushFront AQ (q 2 1); @VInsert AQ 1 (q 5 1); @VSort AQ; @VSwap AQ 0 2]
+    = [q 5 1; q 3 1; q 2 1].
+Proof.
+  cbv zeta. split; [|split].
+  - vm_compute isort.
+    apply perm_trans with [q (-1) 2; q 3 1; q 2 1; q (-1) 2]; [|apply perm_swap].
+    apply perm_skip.
+    apply perm_trans with [q 3 1; q (-1) 2; q 2 1]; [|apply perm_skip; apply perm_swap].
+    apply perm_trans with [q (-1) 2; q 3 1; q 2 1]; [|apply perm_swap].
+    apply perm_skip. apply perm_swap.
+  - vm_compute isort. repeat (constructor; try reflexivity).
+  - vm_compute. reflexivity.
+Qed.
+
+(* ---------------------------------------------------------------- range reductions *)
+Theorem sum_slice_spec : forall (A : Arith) (v : list A) s e,
+  (s <= e -> e < length v ->
+     sum_slice v s e = Ok (sum_n (e - s + 1) (fun k => nth (s + k) v zero))) /\
+  (e < s \/ length v <= e -> sum_slice v s e = Panic Guard).
+Proof. intros A v s e. exact (sum_slice_spec_lemma v s e). Qed.
+Check sum_slice_spec : forall (A : Arith) (v : list A) s e,
+  (s <= e -> e < length v ->
+     sum_slice v s e = Ok (sum_n (e - s + 1) (fun k => nth (s + k) v zero))) /\
+  (e < s \/ length v <= e -> sum_slice v s e = Panic Guard).
+Print Assumptions sum_slice_spec.
+
+Example sum_slice_spec_nonvacuous :
+  1 <= 2 /\ 2 < length [q 1 1; q 1 2; q 1 3; q 5 1] /\
+  sum_slice (A := AQ) [q 1 1; q 1 2; q 1 3; q 5 1] 1 2 = Ok (q 5 6) /\
+  sum_slice (A := AQ) [q 1 1; q 1 2; q 1 3; q 5 1] 2 4 = Panic Guard /\
+  sum_slice (A := AQ) [q 1 1; q 1 2; q 1 3; q 5 1] 3 2 = Panic Guard.
+Proof. repeat split; auto with arith. Qed.
+
+Theorem product_slice_spec : forall (A : Arith) (v : list A) s e,
+  (s <= e -> e < length v ->
+     product_slice v s e = Ok (prod_from (nth s v zero) (e - s) (fun k => nth (s + 1 + k) v zero))) /\
+  (e < s \/ length v <= e -> product_slice v s e = Panic Guard).
+Proof. intros A v s e. exact (product_slice_spec_lemma v s e). Qed.
+Check product_slice_spec : forall (A : Arith) (v : list A) s e,
+  (s <= e -> e < length v ->
+     product_slice v s e = Ok (prod_from (nth s v zero) (e - s) (fun k => nth (s + 1 + k) v zero))) /\
+  (e < s \/ length v <= e -> product_slice v s e = Panic Guard).
+Print Assumptions product_slice_spec.
+
+Example product_slice_spec_nonvacuous :
+  product_slice (A := AQ) [q 2 1; q 1 2; q 3 1; q 5 1] 1 3 = Ok (q 15 2).
+Proof. reflexivity. Qed.
+
+Theorem sum_spec : forall (A : Arith) (v : list A),
+  (v <> [] -> vsum v = Ok (sum_n (length v) (fun k => nth k v zero))) /\ (v = [] -> vsum v = Panic Underflow).
+Proof. intros A v. exact (vsum_spec_lemma v). Qed.
+Check sum_spec : forall (A : Arith) (v : list A),
+  (v <> [] -> vsum v = Ok (sum_n (length v) (fun k => nth k v zero))) /\ (v = [] -> vsum v = Panic Underflow).
+Print Assumptions sum_spec.
+
+(* ---------------------------------------------------------------- dot product over a ring *)
+Theorem dot_symmetric : forall (A : Arith), RingLaws A -> forall (u w : list A), dot u w = dot w u.
+Proof. intros A RL u w. exact (dot_sym_lemma RL u w). Qed.
+Check dot_symmetric : forall (A : Arith), RingLaws A -> forall (u w : list A), dot u w = dot w u.
+Print Assumptions dot_symmetric.
+
+Theorem dot_bilinear : forall (A : Arith), RingLaws A -> forall (u u' w : list A) (c : A),
+  length u = length u' -> length u = length w ->
+  (exists s, vadd u u' = Ok s /\ dot s w = Ok (add (dot_raw u w) (dot_raw u' w))) /\
+  (exists d, vsub u u' = Ok d /\ dot d w = Ok (sub (dot_raw u w) (dot_raw u' w))) /\
+  dot (vscale u c) w = Ok (mul c (dot_raw u w)) /\
+  dot (vneg u) w = Ok (neg (dot_raw u w)) /\
+  (exists s, vadd u u' = Ok s /\ dot w s = Ok (add (dot_raw w u) (dot_raw w u'))) /\
+  dot w (vscale u c) = Ok (mul c (dot_raw w u)).
+Proof. intros A RL u u' w c H1 H2. exact (dot_bilinear_lemma RL u u' w c H1 H2). Qed.
+Check dot_bilinear : forall (A : Arith), RingLaws A -> forall (u u' w : list A) (c : A),
+  length u = length u' -> length u = length w ->
+  (exists s, vadd u u' = Ok s /\ dot s w = Ok (add (dot_raw u w) (dot_raw u' w))) /\
+  (exists d, vsub u u' = Ok d /\ dot d w = Ok (sub (dot_raw u w) (dot_raw u' w))) /\
+  dot (vscale u c) w = Ok (mul c (dot_raw u w)) /\
+  dot (vneg u) w = Ok (neg (dot_raw u w)) /\
+  (exists s, vadd u u' = Ok s /\ dot w s = Ok (add (dot_raw w u) (dot_raw w u'))) /\
+  dot w (vscale u c) = Ok (mul c (dot_raw w u)).
+Print Assumptions dot_bilinear.
+
+Lemma AQ_RingLaws15 : RingLaws AQ.
+Proof. constructor. exact Qcrt. Qed.
+
+Example dot_bilinear_nonvacuous :
+  RingLaws AQ /\ length [q 1 2; q 3 1] = length [q 2 1; q (-1) 3] /\ length [q 1 2; q 3 1] = length [q 4 1; q 6 1] /\
+  dot (A := AQ) [q 1 2; q 3 1] [q 4 1; q 6 1] = Ok (q 20 1).
+Proof. split; [exact AQ_RingLaws15|]. repeat split. Qed.
+
+(* ---------------------------------------------------------------- linspace *)
+Theorem linspace_ends : forall (F : SArith), FieldLaws F -> OfNatLaws F -> forall (a b : F) n, 2 <= n ->
+  exists l, linspace a b n = Ok l /\ length l = n /\ hd zero l = a /\ last l zero = b.
+Proof. intros F FL ON a b n H. exact (linspace_ends_lemma FL ON a b n H). Qed.
+Check linspace_ends : forall (F : SArith), FieldLaws F -> OfNatLaws F -> forall (a b : F) n, 2 <= n ->
+  exists l, linspace a b n = Ok l /\ length l = n /\ hd zero l = a /\ last l zero = b.
+Print Assumptions linspace_ends.
+
+Theorem linspace_monotone : forall (a b : R) n, (a < b)%R -> 2 <= n ->
+  exists l, linspace (F := SAR) a b n = Ok l /\ length l = n /\
+            forall i j, i < j < n -> (nth i l 0 < nth j l 0)%R.
+Proof. intros a b n Hab Hn. exact (linspace_monotone_lemma a b n Hab Hn). Qed.
+Check linspace_monotone : forall (a b : R) n, (a < b)%R -> 2 <= n ->
+  exists l, linspace (F := SAR) a b n = Ok l /\ length l = n /\
+            forall i j, i < j < n -> (nth i l 0 < nth j l 0)%R.
+Print Assumptions linspace_monotone.
+
+(* non-vacuity: the hypotheses hold at R (FieldLaws, OfNatLaws) and for concrete end points *)
+Example linspace_nonvacuous :
+  inhabited (FieldLaws SAR) /\ OfNatLaws SAR /\ (1 < 3)%R /\ 2 <= 5.
+Proof.
+  split; [exact (inhabits AR_FieldLaws)|]. split; [exact SAR_OfNatLaws|]. split; [|auto with arith].
+  apply (Rplus_lt_reg_l (-1)%R). replace (-1 + 1)%R with 0%R by ring. replace (-1 + 3)%R with 2%R by ring. exact Rlt_0_2.
+Qed.
+
+(* ---------------------------------------------------------------- norm laws over R *)
+Theorem norm_nonneg : forall (v : list R),
+  (0 <= norm_1 (A := AR) v)%R /\ (0 <= norm_2 (F := SAR) Rabs v)%R /\
+  (forall m, norm_inf (F := SAR) Rabs v = Ok m -> (0 <= m)%R).
+Proof.
+  intros v. exact (Logic.conj (norm1_nonneg_lemma v) (Logic.conj (norm2_nonneg_lemma v) (norm_inf_nonneg_lemma v))).
+Qed.
+Check norm_nonneg : forall (v : list R),
+  (0 <= norm_1 (A := AR) v)%R /\ (0 <= norm_2 (F := SAR) Rabs v)%R /\
+  (forall m, norm_inf (F := SAR) Rabs v = Ok m -> (0 <= m)%R).
+Print Assumptions norm_nonneg.
+
+Theorem norm_homogeneous : forall (v : list R) (c : R),
+  norm_1 (A := AR) (vscale (A := AR) v c) = (Rabs c * norm_1 (A := AR) v)%R /\
+  norm_2 (F := SAR) Rabs (vscale (A := AR) v c) = (Rabs c * norm_2 (F := SAR) Rabs v)%R /\
+  (forall m, norm_inf (F := SAR) Rabs v = Ok m ->
+             norm_inf (F := SAR) Rabs (vscale (A := AR) v c) = Ok (Rabs c * m)%R).
+Proof.
+  intros v c. exact (Logic.conj (norm1_homog_lemma v c) (Logic.conj (norm2_homog_lemma v c) (norm_inf_homog_lemma v c))).
+Qed.
+Check norm_homogeneous : forall (v : list R) (c : R),
+  norm_1 (A := AR) (vscale (A := AR) v c) = (Rabs c * norm_1 (A := AR) v)%R /\
+  norm_2 (F := SAR) Rabs (vscale (A := AR) v c) = (Rabs c * norm_2 (F := SAR) Rabs v)%R /\
+  (forall m, norm_inf (F := SAR) Rabs v = Ok m ->
+             norm_inf (F := SAR) Rabs (vscale (A := AR) v c) = Ok (Rabs c * m)%R).
+Print Assumptions norm_homogeneous.
+
+Theorem norm1_triangle : forall (u v s : list R), vadd (A := AR) u v = Ok s ->
+  (norm_1 (A := AR) s <= norm_1 (A := AR) u + norm_1 (A := AR) v)%R.
+Proof. intros u v s E. exact (norm1_triangle_lemma u v s E). Qed.
+Check norm1_triangle : forall (u v s : list R), vadd (A := AR) u v = Ok s ->
+  (norm_1 (A := AR) s <= norm_1 (A := AR) u + norm_1 (A := AR) v)%R.
+Print Assumptions norm1_triangle.
+
+Theorem norm2_triangle : forall (u v s : list R), vadd (A := AR) u v = Ok s ->
+  (norm_2 (F := SAR) Rabs s <= norm_2 (F := SAR) Rabs u + norm_2 (F := SAR) Rabs v)%R.
+Proof. intros u v s E. exact (norm2_triangle_lemma u v s E). Qed.
+Check norm2_triangle : forall (u v s : list R), vadd (A := AR) u v = Ok s ->
+  (norm_2 (F := SAR) Rabs s <= norm_2 (F := SAR) Rabs u + norm_2 (F := SAR) Rabs v)%R.
+Print Assumptions norm2_triangle.
+
+Theorem norm_inf_triangle : forall (u v s : list R) (a b : R), vadd (A := AR) u v = Ok s ->
+  norm_inf (F := SAR) Rabs u = Ok a -> norm_inf (F := SAR) Rabs v = Ok b ->
+  exists m, norm_inf (F := SAR) Rabs s = Ok m /\ (m <= a + b)%R.
+Proof. intros u v s a b E Ea Eb. exact (norm_inf_triangle_lemma u v s a b E Ea Eb). Qed.
+Check norm_inf_triangle : forall (u v s : list R) (a b : R), vadd (A := AR) u v = Ok s ->
+  norm_inf (F := SAR) Rabs u = Ok a -> norm_inf (F := SAR) Rabs v = Ok b ->
+  exists m, norm_inf (F := SAR) Rabs s = Ok m /\ (m <= a + b)%R.
+Print Assumptions norm_inf_triangle.
+
+Theorem norm_chain : forall (v : list R), v <> [] ->
+  exists m, norm_inf (F := SAR) Rabs v = Ok m /\
+            (m <= norm_2 (F := SAR) Rabs v)%R /\ (norm_2 (F := SAR) Rabs v <= norm_1 (A := AR) v)%R.
+Proof. intros v H. exact (norm_chain_lemma v H). Qed.
+Check norm_chain : forall (v : list R), v <> [] ->
+  exists m, norm_inf (F := SAR) Rabs v = Ok m /\
+            (m <= norm_2 (F := SAR) Rabs v)%R /\ (norm_2 (F := SAR) Rabs v <= norm_1 (A := AR) v)%R.
+Print Assumptions norm_chain.
+
+(* non-vacuity of the triangle / chain hypotheses: a concrete sum of equal-length real vectors is defined and
+   norm_inf of it is a value *)
+Example norm_laws_nonvacuous :
+  vadd (A := AR) [1; -2]%R [3; 4]%R = Ok [(1 + 3)%R; (-2 + 4)%R] /\
+  [1; -2]%R <> [] /\ exists m, norm_inf (F := SAR) Rabs [1; -2]%R = Ok m.
+Proof.
+  split; [reflexivity|]. split; [discriminate|]. rewrite norm_inf_R. eexists; reflexivity.
+Qed.
